@@ -1,3 +1,4 @@
+#![allow(static_mut_refs, unused_imports, dead_code, unused_unsafe)]
 // Kani harnesses for src/tex.rs
 use super::*;
 use crate::verif_support::bcn_ref::*;
@@ -123,3 +124,24 @@ fn c13_from_existing_bc5_4x4() { from_existing_bc::<4, 4, 1, { 80 + 16 }>(0x6230
 #[kani::proof]
 #[kani::unwind(20)]
 fn c13_from_existing_bc1_4x4x2() { from_existing_bc::<4, 4, 2, { 80 + 16 }>(0x3420); }
+
+// ------------------------------------------------------------------------------------- C18
+/// a texture whose payload is shorter than its header promises must be rejected, not crash
+#[kani::proof]
+#[kani::unwind(20)]
+fn c18_texture_short_payload_bc1() {
+    let mut buf = [0u8; 84];
+    header(&mut buf, kani::any(), 0x3420, 4, 4, 1);
+    let r = Texture::from_existing(&buf);
+    kani::cover!(true);
+    core::mem::forget(r);
+}
+#[kani::proof]
+#[kani::unwind(20)]
+fn c18_texture_short_payload_bgra() {
+    let mut buf = [0u8; 86];
+    header(&mut buf, kani::any(), 0x1450, 2, 1, 1);
+    let r = Texture::from_existing(&buf);
+    kani::cover!(true);
+    core::mem::forget(r);
+}
